@@ -51,6 +51,9 @@ pub struct Scenario {
     pub faults: Vec<(usize, usize, u32, Decision)>,
     pub urgency_mode: u8,
     pub srv_seed: u64,
+    /// C03: round-structured history: rounds[r][replica] = the batch that replica commits in round r
+    #[serde(default)]
+    pub rounds: Vec<Vec<Vec<Intent>>>,
 }
 
 pub fn task_uuid(t: u8) -> Uuid {
@@ -96,8 +99,10 @@ struct World {
     want_log: bool,
     /// global simulated time (ns since epoch), advanced by the executor
     now_ns: i64,
-    /// for each node: did the node pull a version during the sync call in flight
-    faults_seen: u64,
+    steps: u64,
+    sched_hash: Fnv,
+    /// distinguishes values of different rounds / phases (action indices restart there)
+    epoch: usize,
 }
 
 impl World {
@@ -188,7 +193,8 @@ async fn build_ops(n: usize, a: usize, replica: &mut Replica<SimStorage>, intent
 async fn do_commit(n: usize, a: usize, w: &Rc<RefCell<World>>, replica: &mut Replica<SimStorage>, intents: &[Intent]) {
     let now = w.borrow().now_ns;
     let f0 = fired_total();
-    let Some(ops) = build_ops(n, a, replica, intents, now).await else {
+    let epoch = w.borrow().epoch;
+    let Some(ops) = build_ops(n, epoch * 10_000 + a, replica, intents, now).await else {
         return;
     };
     if ops.is_empty() {
@@ -442,22 +448,13 @@ fn hash_state(w: &World) -> u64 {
     h.0
 }
 
-pub fn run(scv: &Value, want_log: bool) -> RunResult {
-    let sc: Scenario = match serde_json::from_value(scv.clone()) {
-        Ok(s) => s,
-        Err(e) => {
-            return RunResult { violations: vec![Violation { oracle: "harness".into(), sig: "bad-scenario".into(), detail: e.to_string() }], ..Default::default() }
-        }
-    };
+type W = Rc<RefCell<World>>;
+
+fn new_world(sc: &Scenario, want_log: bool) -> W {
     let n = sc.nodes;
-    let mut ctx = Ctx::new(n);
-    for (node, act, ord, d) in &sc.faults {
-        ctx.faults.insert((*node, *act, *ord), *d);
-    }
-    exec::install(ctx);
     let start_ns = EPOCH0 * 1_000_000_000;
     interpose::set_now_ns(start_ns);
-    let w = Rc::new(RefCell::new(World {
+    Rc::new(RefCell::new(World {
         stores: (0..n).map(|_| simstorage::new_mem()).collect(),
         server: Rc::new(RefCell::new(ServerWorld::new(sc.srv_seed, sc.urgency_mode, false))),
         pc: vec![0; n],
@@ -467,14 +464,75 @@ pub fn run(scv: &Value, want_log: bool) -> RunResult {
         log: Vec::new(),
         want_log,
         now_ns: start_ns,
-        faults_seen: 0,
+        steps: 0,
+        sched_hash: Fnv::default(),
+        epoch: 0,
         sc: sc.clone(),
-    }));
-    let mut nodes: Vec<Option<NodeFut>> = (0..n).map(|i| Some(make_node(i, w.clone()))).collect();
+    }))
+}
+
+/// Deep copy of a world (durable stores, server, ledger): used to re-execute from the same state.
+fn fork(w: &W) -> W {
+    let wb = w.borrow();
+    let server_copy: ServerWorld = wb.server.borrow().clone();
+    Rc::new(RefCell::new(World {
+        stores: wb.stores.iter().map(simstorage::clone_mem).collect(),
+        server: Rc::new(RefCell::new(server_copy)),
+        pc: wb.pc.clone(),
+        ledger: wb.ledger.clone(),
+        violations: Vec::new(),
+        probes: BTreeMap::new(),
+        log: Vec::new(),
+        want_log: wb.want_log,
+        now_ns: wb.now_ns,
+        steps: 0,
+        sched_hash: Fnv::default(),
+        epoch: wb.epoch,
+        sc: wb.sc.clone(),
+    }))
+}
+
+/// Merge what a forked execution observed back into the parent world.
+fn absorb(w: &W, child: &W, tag: &str) {
+    let mut wb = w.borrow_mut();
+    let cb = child.borrow();
+    for v in cb.violations.iter().chain(cb.server.borrow().violations.iter()) {
+        let mut v = v.clone();
+        if !tag.is_empty() {
+            v.sig = format!("{}@{}", v.sig, tag);
+            v.detail = format!("[{tag}] {}", v.detail);
+        }
+        wb.violations.push(v);
+    }
+    for (k, v) in &cb.probes {
+        *wb.probes.entry(k.clone()).or_insert(0) += v;
+    }
+    wb.steps += cb.steps;
+    let h = cb.sched_hash.0;
+    wb.sched_hash.write_u64(h);
+    if wb.want_log {
+        for l in &cb.log {
+            wb.log.push(format!("  [{tag}] {l}"));
+        }
+    }
+}
+
+/// Execute the scripts of `w.sc` from the current program counters under the seeded scheduler.
+fn run_scripted(w: &W, faults: &[(usize, usize, u32, Decision)], only: Option<&[usize]>) {
+    let (n, sched_seed, atomic, bias) = {
+        let wb = w.borrow();
+        (wb.sc.nodes, wb.sc.sched_seed, wb.sc.atomic_sync, wb.sc.bias)
+    };
+    exec::with_ctx(|c| {
+        c.faults.clear();
+        for (node, act, ord, d) in faults {
+            c.faults.insert((*node, *act, *ord), *d);
+        }
+    });
+    let mut nodes: Vec<Option<NodeFut>> = (0..n).map(|i| if only.map(|o| o.contains(&i)).unwrap_or(true) { Some(make_node(i, w.clone())) } else { None }).collect();
     let mut parked: Vec<Option<&'static str>> = vec![None; n];
-    let mut rng = Rng::new(sc.sched_seed);
+    let mut rng = Rng::new(sched_seed ^ w.borrow().steps);
     let mut steps = 0u64;
-    let mut sched_hash = Fnv::default();
     loop {
         let runnable: Vec<usize> = (0..n).filter(|i| nodes[*i].is_some()).collect();
         if runnable.is_empty() {
@@ -485,13 +543,12 @@ pub fn run(scv: &Value, want_log: bool) -> RunResult {
             w.borrow_mut().violation("liveness", "scripted-phase-steps", "scripted phase did not finish within 200000 scheduler steps".into());
             break;
         }
-        // choose who runs
         let in_sync: Vec<usize> = runnable.iter().copied().filter(|i| parked[*i].map(|l| l.starts_with("srv.")).unwrap_or(false)).collect();
-        let pick = if sc.atomic_sync && !in_sync.is_empty() {
+        let pick = if atomic && !in_sync.is_empty() {
             in_sync[0]
         } else {
             let r = rng.next_u64();
-            match sc.bias {
+            match bias {
                 1 => {
                     // hold nodes that are about to add a version, so that several pile up there
                     let others: Vec<usize> = runnable.iter().copied().filter(|i| parked[*i] != Some("srv.add_version")).collect();
@@ -513,9 +570,9 @@ pub fn run(scv: &Value, want_log: bool) -> RunResult {
                 _ => runnable[(r % runnable.len() as u64) as usize],
             }
         };
-        sched_hash.write_u64(pick as u64);
         {
             let mut wb = w.borrow_mut();
+            wb.sched_hash.write_u64(pick as u64);
             wb.now_ns += 1_000_000_000;
             interpose::set_now_ns(wb.now_ns);
         }
@@ -537,93 +594,107 @@ pub fn run(scv: &Value, want_log: bool) -> RunResult {
                 }
                 w.borrow_mut().probe("node.crash_restart");
                 w.borrow_mut().log(|| format!("n{pick} crashed and restarted"));
-                post_check(pick, &w, "crash");
+                post_check(pick, w, "crash");
                 nodes[pick] = Some(make_node(pick, w.clone()));
             }
         }
     }
-    drop(nodes);
-
-    // ---- final phase: faults off, everybody syncs until quiescent -------------------------------
+    w.borrow_mut().steps += steps;
     exec::with_ctx(|c| c.faults.clear());
-    let scripted_violations = w.borrow().violations.len();
+}
+
+fn has_violations(w: &W) -> bool {
+    let wb = w.borrow();
+    let r = !wb.violations.is_empty() || !wb.server.borrow().violations.is_empty();
+    r
+}
+
+/// Final phase: faults off, every node syncs round-robin until quiescent (bounded liveness).
+fn final_phase(w: &W) -> bool {
+    exec::with_ctx(|c| c.faults.clear());
+    let n = w.borrow().sc.nodes;
     let mut rounds = 0;
     let mut quiescent = false;
-    if scripted_violations == 0 {
-        let stores: Vec<MemStore> = w.borrow().stores.clone();
-        let srv = w.borrow().server.clone();
-        let mut reps: Vec<(Replica<SimStorage>, Box<dyn Server>)> =
-            (0..n).map(|i| (Replica::new(SimStorage::mem(stores[i].clone())), Box::new(SimServer { node: i, world: srv.clone() }) as Box<dyn Server>)).collect();
-        while rounds < 4 {
-            rounds += 1;
-            let len0 = srv.borrow().chain.versions.len();
-            let mut all_ok = true;
-            for i in 0..n {
-                let (rep, server) = &mut reps[i];
-                let ok = exec::block_on(do_sync(i, 1000 + rounds, &w, rep, server, true, true));
-                all_ok &= ok;
-                post_check(i, &w, "final sync");
-            }
-            if !all_ok || !w.borrow().violations.is_empty() {
-                break;
-            }
-            let latest = srv.borrow().chain.latest;
-            let settled = (0..n).all(|i| {
-                let st = simstorage::read_mem(&stores[i]);
-                st.base_version == latest && st.unsynced.iter().all(|o| o.is_undo_point())
-            });
-            if settled && srv.borrow().chain.versions.len() == len0 {
-                quiescent = true;
-                break;
-            }
+    let stores: Vec<MemStore> = w.borrow().stores.clone();
+    let srv = w.borrow().server.clone();
+    let mut reps: Vec<(Replica<SimStorage>, Box<dyn Server>)> =
+        (0..n).map(|i| (Replica::new(SimStorage::mem(stores[i].clone())), Box::new(SimServer { node: i, world: srv.clone() }) as Box<dyn Server>)).collect();
+    while rounds < 4 {
+        rounds += 1;
+        let len0 = srv.borrow().chain.versions.len();
+        let mut all_ok = true;
+        for i in 0..n {
+            let (rep, server) = &mut reps[i];
+            let ok = exec::block_on(do_sync(i, 1000 + rounds, w, rep, server, true, true));
+            all_ok &= ok;
+            post_check(i, w, "final sync");
         }
-        if !quiescent && w.borrow().violations.is_empty() {
-            w.borrow_mut().violation("liveness", "no-quiescence", format!("replicas did not become quiescent within {rounds} fault-free rounds of syncs"));
+        if !all_ok || has_violations(w) {
+            break;
+        }
+        let latest = srv.borrow().chain.latest;
+        let settled = (0..n).all(|i| {
+            let st = simstorage::read_mem(&stores[i]);
+            st.base_version == latest && st.unsynced.iter().all(|o| o.is_undo_point())
+        });
+        if settled && srv.borrow().chain.versions.len() == len0 {
+            quiescent = true;
+            break;
         }
     }
+    if !quiescent && !has_violations(w) {
+        w.borrow_mut().violation("liveness", "no-quiescence", format!("replicas did not become quiescent within {rounds} fault-free rounds of syncs"));
+    }
+    quiescent
+}
 
-    // ---- history oracles at quiescence -----------------------------------------------------------
-    if quiescent {
-        let mut wb = w.borrow_mut();
-        let chain_state = wb.server.borrow().chain.state_latest();
-        match chain_state {
-            Err(e) => wb.violation("convergence", "chain-undecodable", e),
-            Ok(exp) => {
-                let stores = wb.stores.clone();
-                for (i, s) in stores.iter().enumerate() {
-                    let st = simstorage::read_mem(s);
-                    if st.tasks != exp {
-                        wb.violation(
-                            "convergence",
-                            "replica-vs-chain",
-                            format!(
-                                "after quiescence node {i} differs from the replay of the server's versions\n  node:  {}\n  chain: {}",
-                                model::fmt_taskset(&st.tasks),
-                                model::fmt_taskset(&exp)
-                            ),
-                        );
-                        break;
-                    }
+/// History oracles at quiescence: convergence to the replay of the chain, conservation.
+fn history_oracles(w: &W) {
+    let mut wb = w.borrow_mut();
+    let chain_state = wb.server.borrow().chain.state_latest();
+    match chain_state {
+        Err(e) => wb.violation("convergence", "chain-undecodable", e),
+        Ok(exp) => {
+            let stores = wb.stores.clone();
+            for (i, s) in stores.iter().enumerate() {
+                let st = simstorage::read_mem(s);
+                if st.tasks != exp {
+                    wb.violation(
+                        "convergence",
+                        "replica-vs-chain",
+                        format!(
+                            "after quiescence node {i} differs from the replay of the server's versions\n  node:  {}\n  chain: {}",
+                            model::fmt_taskset(&st.tasks),
+                            model::fmt_taskset(&exp)
+                        ),
+                    );
+                    break;
                 }
             }
         }
-        conservation(&mut wb);
     }
+    conservation(&mut wb);
+}
 
+fn parse_scenario(scv: &Value) -> Result<Scenario, RunResult> {
+    serde_json::from_value(scv.clone()).map_err(|e| RunResult {
+        violations: vec![Violation { oracle: "harness".into(), sig: "bad-scenario".into(), detail: e.to_string() }],
+        ..Default::default()
+    })
+}
+
+fn finish(w: &W, evals: u64, nontrivial_probe: &[&str]) -> RunResult {
     let ctx = exec::uninstall().unwrap();
     let wb = w.borrow();
     let mut probes = wb.probes.clone();
     for (k, v) in &wb.server.borrow().counters {
-        probes.insert(format!("srv.{k}"), *v);
+        *probes.entry(format!("srv.{k}")).or_insert(0) += *v;
     }
     let mut violations = wb.violations.clone();
     violations.extend(wb.server.borrow().violations.iter().cloned());
     let mut trace = ctx.trace;
-    trace.write_u64(sched_hash.0);
-    let nontrivial = match sc.check.as_str() {
-        "C02" => probes.get("srv.add_version.rejected").copied().unwrap_or(0) > 0,
-        _ => probes.get("sync.pull_then_push").copied().unwrap_or(0) > 0,
-    };
+    trace.write_u64(wb.sched_hash.0);
+    let nontrivial = nontrivial_probe.iter().any(|p| probes.get(*p).copied().unwrap_or(0) > 0);
     RunResult {
         violations,
         trace_hash: trace.0,
@@ -631,11 +702,364 @@ pub fn run(scv: &Value, want_log: bool) -> RunResult {
         fired: ctx.fired.clone(),
         probes,
         points: ctx.points.iter().map(|(k, v)| (k.to_string(), *v)).collect(),
-        sim_seconds: (wb.now_ns - start_ns) as f64 / 1e9,
-        steps,
+        sim_seconds: (wb.now_ns - EPOCH0 * 1_000_000_000) as f64 / 1e9,
+        steps: wb.steps,
         nontrivial,
+        evals,
         log: wb.log.clone(),
     }
+}
+
+pub fn run(scv: &Value, want_log: bool) -> RunResult {
+    let sc = match parse_scenario(scv) {
+        Ok(s) => s,
+        Err(r) => return r,
+    };
+    exec::install(Ctx::new(sc.nodes));
+    let w = new_world(&sc, want_log);
+    run_scripted(&w, &sc.faults, None);
+    if !has_violations(&w) && final_phase(&w) {
+        history_oracles(&w);
+    }
+    let probe: &[&str] = match sc.check.as_str() {
+        "C02" => &["srv.add_version.rejected"],
+        _ => &["sync.pull_then_push"],
+    };
+    finish(&w, 1, probe)
+}
+
+// ---- C03: documented winners, independent of sync order -------------------------------------
+
+fn permutations(n: usize) -> Vec<Vec<usize>> {
+    fn rec(cur: &mut Vec<usize>, used: &mut Vec<bool>, n: usize, out: &mut Vec<Vec<usize>>) {
+        if cur.len() == n {
+            out.push(cur.clone());
+            return;
+        }
+        for i in 0..n {
+            if !used[i] {
+                used[i] = true;
+                cur.push(i);
+                rec(cur, used, n, out);
+                cur.pop();
+                used[i] = false;
+            }
+        }
+    }
+    let mut out = Vec::new();
+    rec(&mut Vec::new(), &mut vec![false; n], n, &mut out);
+    out
+}
+
+/// M-winner (docs/src/sync-model.md, tasks.md): expected common state after a round in which the
+/// replicas concurrently committed `batches` on the common state `s0`. Returns the expected
+/// state plus, per (task, property) whose winner the documentation leaves open (equal greatest
+/// timestamps, different values), the set of admissible values.
+fn m_winner(s0: &TaskSet, batches: &[Vec<SOp>]) -> (TaskSet, BTreeMap<(Uuid, String), Vec<Option<String>>>) {
+    let mut exp = s0.clone();
+    let mut open: BTreeMap<(Uuid, String), Vec<Option<String>>> = BTreeMap::new();
+    let mut deleted: BTreeSet<Uuid> = BTreeSet::new();
+    for b in batches {
+        for op in b {
+            match op {
+                SOp::Create { uuid } => {
+                    exp.entry(*uuid).or_default();
+                }
+                SOp::Delete { uuid } => {
+                    deleted.insert(*uuid);
+                }
+                _ => {}
+            }
+        }
+    }
+    // per (task, property): the update with the greatest timestamp wins
+    let mut cands: BTreeMap<(Uuid, String), Vec<((i64, u32), Option<String>)>> = BTreeMap::new();
+    for b in batches {
+        for op in b {
+            if let SOp::Update { uuid, property, value, ts } = op {
+                cands.entry((*uuid, property.clone())).or_default().push((ts_key(ts), value.clone()));
+            }
+        }
+    }
+    for ((u, p), c) in cands {
+        let best = c.iter().map(|x| x.0).max().unwrap();
+        let mut winners: Vec<Option<String>> = c.iter().filter(|x| x.0 == best).map(|x| x.1.clone()).collect();
+        winners.sort();
+        winners.dedup();
+        if let Some(t) = exp.get_mut(&u) {
+            match &winners[0] {
+                Some(v) => {
+                    t.insert(p.clone(), v.clone());
+                }
+                None => {
+                    t.remove(&p);
+                }
+            }
+        }
+        if winners.len() > 1 {
+            open.insert((u, p), winners);
+        }
+    }
+    for u in deleted {
+        exp.remove(&u);
+    }
+    (exp, open)
+}
+
+/// None if `got` is admissible; otherwise the (task, property) at which it is not (property "" = task set).
+fn winner_mismatch(got: &TaskSet, exp: &TaskSet, open: &BTreeMap<(Uuid, String), Vec<Option<String>>>) -> Option<(Uuid, String)> {
+    if got.keys().collect::<Vec<_>>() != exp.keys().collect::<Vec<_>>() {
+        let u = got.keys().chain(exp.keys()).find(|u| got.contains_key(u) != exp.contains_key(u)).copied().unwrap_or_default();
+        return Some((u, String::new()));
+    }
+    for (u, ep) in exp {
+        let gp = &got[u];
+        let mut keys: BTreeSet<&String> = ep.keys().collect();
+        keys.extend(gp.keys());
+        for k in keys {
+            if let Some(adm) = open.get(&(*u, k.clone())) {
+                if !adm.contains(&gp.get(k).cloned()) {
+                    return Some((*u, k.clone()));
+                }
+            } else if gp.get(k) != ep.get(k) {
+                return Some((*u, k.clone()));
+            }
+        }
+    }
+    None
+}
+
+pub fn run_c03(scv: &Value, want_log: bool) -> RunResult {
+    let sc = match parse_scenario(scv) {
+        Ok(s) => s,
+        Err(r) => return r,
+    };
+    let n = sc.nodes;
+    exec::install(Ctx::new(n));
+    let mut w = new_world(&sc, want_log);
+    let perms = permutations(n);
+    let mut evals = 0u64;
+    'rounds: for (r, batches) in sc.rounds.iter().enumerate() {
+        // all replicas are quiescent on a common state
+        let s0 = w.borrow().server.borrow().chain.state_latest().unwrap_or_default();
+        // each replica commits its batch
+        {
+            let mut wb = w.borrow_mut();
+            wb.sc.scripts = batches.iter().map(|b| vec![Action::Commit { ops: b.clone() }]).collect();
+            wb.sc.atomic_sync = true;
+            wb.pc = vec![0; n];
+            wb.epoch = r + 1;
+        }
+        let led0: Vec<usize> = w.borrow().ledger.iter().map(|l| l.len()).collect();
+        run_scripted(&w, &[], None);
+        if has_violations(&w) {
+            break;
+        }
+        let committed: Vec<Vec<SOp>> = (0..n)
+            .map(|i| w.borrow().ledger[i][led0[i]..].iter().filter(|e| e.status == LStatus::Committed).map(|e| e.sop.clone()).collect())
+            .collect();
+        let (exp, open) = m_winner(&s0, &committed);
+        if !open.is_empty() {
+            w.borrow_mut().probe("c03.tie_round");
+        }
+        if committed.iter().filter(|c| !c.is_empty()).count() >= 2 {
+            w.borrow_mut().probe("c03.concurrent_round");
+        }
+        // execute the synchronisation under every order of first syncs
+        let mut results: Vec<(Vec<usize>, TaskSet, W)> = Vec::new();
+        for (pi, perm) in perms.iter().enumerate() {
+            evals += 1;
+            let c = fork(&w);
+            // first syncs, one replica after the other in this order
+            for &i in perm {
+                {
+                    let mut cb = c.borrow_mut();
+                    cb.sc.scripts = (0..n).map(|j| if j == i { vec![Action::Sync { avoid: true }] } else { vec![] }).collect();
+                    cb.pc = vec![0; n];
+                    cb.sc.atomic_sync = true;
+                }
+                run_scripted(&c, &[], None);
+            }
+            // catch-up syncs, all in flight together, interleaved per request by the seeded scheduler
+            {
+                let mut cb = c.borrow_mut();
+                cb.sc.scripts = (0..n).map(|_| vec![Action::Sync { avoid: true }, Action::Sync { avoid: true }]).collect();
+                cb.pc = vec![0; n];
+                cb.sc.atomic_sync = false;
+                cb.sc.sched_seed = mix(sc.sched_seed, "catchup", (r * 16 + pi) as u64);
+            }
+            run_scripted(&c, &[], None);
+            let q = !has_violations(&c) && final_phase(&c);
+            if q {
+                history_oracles(&c);
+            }
+            let tag = format!("round{r}/order{perm:?}");
+            let bad = has_violations(&c);
+            absorb(&w, &c, "");
+            if bad {
+                let _ = tag;
+                break 'rounds;
+            }
+            let got = c.borrow().server.borrow().chain.state_latest().unwrap_or_default();
+            if let Some((mu, mp)) = winner_mismatch(&got, &exp, &open) {
+                // discriminator: were there two concurrent updates of that property with the same value?
+                let mut vals: Vec<&Option<String>> = Vec::new();
+                for b in &committed {
+                    for op in b {
+                        if let SOp::Update { uuid, property, value, .. } = op {
+                            if *uuid == mu && *property == mp {
+                                vals.push(value);
+                            }
+                        }
+                    }
+                }
+                let same_value = (0..vals.len()).any(|a| (a + 1..vals.len()).any(|b| vals[a] == vals[b]));
+                w.borrow_mut().violation(
+                    "winner",
+                    if mp.is_empty() { "task-existence" } else if same_value { "same-value-updates" } else { "documented-rule" },
+                    format!(
+                        "round {r}, first-sync order {perm:?}: the converged state is not the one the documented conflict rules give\n  common state: {}\n  batches: {:?}\n  got:      {}\n  expected: {}",
+                        model::fmt_taskset(&s0),
+                        committed,
+                        model::fmt_taskset(&got),
+                        model::fmt_taskset(&exp)
+                    ),
+                );
+                break 'rounds;
+            }
+            results.push((perm.clone(), got, c));
+        }
+        // the winner must not depend on the order
+        for k in 1..results.len() {
+            if results[k].1 != results[0].1 {
+                let tie = !open.is_empty();
+                w.borrow_mut().violation(
+                    "order-dependence",
+                    if tie { "tie" } else { "no-tie" },
+                    format!(
+                        "round {r}: the converged state depends on which replica synchronizes first\n  batches: {:?}\n  order {:?}: {}\n  order {:?}: {}",
+                        committed,
+                        results[0].0,
+                        model::fmt_taskset(&results[0].1),
+                        results[k].0,
+                        model::fmt_taskset(&results[k].1)
+                    ),
+                );
+                break 'rounds;
+            }
+        }
+        // continue from one of the executions (chosen by the seed)
+        let pick = (mix(sc.sched_seed, "continue", r as u64) % results.len() as u64) as usize;
+        let (_, _, c) = results.swap_remove(pick);
+        {
+            // carry the accumulated observations over to the continuing world
+            let (viol, probes, log, steps, sh) = {
+                let wb = w.borrow();
+                (wb.violations.clone(), wb.probes.clone(), wb.log.clone(), wb.steps, wb.sched_hash)
+            };
+            let mut cb = c.borrow_mut();
+            cb.violations = viol;
+            cb.probes = probes;
+            cb.log = log;
+            cb.steps = steps;
+            cb.sched_hash = sh;
+            cb.server.borrow_mut().violations.clear();
+        }
+        w = c;
+    }
+    finish(&w, evals.max(1), &["c03.concurrent_round"])
+}
+
+pub fn gen_c03(seed: u64, i: u64, _thorough: bool) -> Value {
+    let s = mix(seed, "C03", i);
+    let mut rng = Rng::new(s);
+    let nodes = *rng.pick(&[2usize, 2, 3]);
+    let tasks = 1 + rng.below(3) as u8;
+    let props = 1 + rng.below(3) as u8;
+    let nrounds = 1 + rng.usize_below(4);
+    let mut rounds = Vec::new();
+    for _ in 0..nrounds {
+        let mut per = Vec::new();
+        for _ in 0..nodes {
+            let mut b = Vec::new();
+            if rng.chance(1, 6) {
+                per.push(b);
+                continue;
+            }
+            for t in 0..tasks {
+                match rng.below(10) {
+                    0..=1 => {}
+                    2 => b.push(Intent::Delete { t }),
+                    _ => {
+                        // create (a no-op when the task exists) then updates of distinct properties
+                        if rng.chance(2, 3) {
+                            b.push(Intent::Create { t });
+                        }
+                        for p in 0..props {
+                            if rng.chance(1, 2) {
+                                let ts = rng.range(-2, 2);
+                                if rng.chance(1, 6) {
+                                    b.push(Intent::Remove { t, p, ts });
+                                } else {
+                                    b.push(Intent::Set { t, p, ts, big: false });
+                                }
+                            }
+                        }
+                    }
+                }
+            }
+            per.push(b);
+        }
+        rounds.push(per);
+    }
+    let sc = Scenario {
+        check: "C03".into(),
+        seed: s,
+        nodes,
+        scripts: vec![vec![]; nodes],
+        sched_seed: rng.next_u64(),
+        atomic_sync: true,
+        bias: 0,
+        faults: vec![],
+        urgency_mode: 0,
+        srv_seed: rng.next_u64(),
+        rounds,
+    };
+    serde_json::to_value(sc).unwrap()
+}
+
+pub fn shrink_c03(scv: &Value) -> Vec<Value> {
+    let Ok(sc) = serde_json::from_value::<Scenario>(scv.clone()) else { return vec![] };
+    let mut out: Vec<Scenario> = Vec::new();
+    for r in 0..sc.rounds.len() {
+        let mut c = sc.clone();
+        c.rounds.remove(r);
+        out.push(c);
+    }
+    if sc.nodes > 2 {
+        let mut c = sc.clone();
+        c.nodes -= 1;
+        c.scripts.pop();
+        for r in c.rounds.iter_mut() {
+            r.pop();
+        }
+        out.push(c);
+    }
+    for r in 0..sc.rounds.len() {
+        for n in 0..sc.nodes {
+            if !sc.rounds[r][n].is_empty() {
+                let mut c = sc.clone();
+                c.rounds[r][n].clear();
+                out.push(c);
+            }
+            for k in 0..sc.rounds[r][n].len() {
+                let mut c = sc.clone();
+                c.rounds[r][n].remove(k);
+                out.push(c);
+            }
+        }
+    }
+    out.into_iter().map(|s| serde_json::to_value(s).unwrap()).collect()
 }
 
 fn ts_key(ts: &str) -> (i64, u32) {
@@ -814,6 +1238,7 @@ pub fn gen_c01(seed: u64, i: u64, thorough: bool) -> Value {
         faults: vec![],
         urgency_mode: *rng.pick(&[0u8, 0, 1]),
         srv_seed: rng.next_u64(),
+        rounds: vec![],
     };
     serde_json::to_value(sc).unwrap()
 }
@@ -847,6 +1272,7 @@ pub fn gen_c02(seed: u64, i: u64, _thorough: bool) -> Value {
         faults: vec![],
         urgency_mode: *rng.pick(&[0u8, 0, 1]),
         srv_seed: rng.next_u64(),
+        rounds: vec![],
     };
     serde_json::to_value(sc).unwrap()
 }
@@ -974,6 +1400,19 @@ const STUB_A: &[&str] = &["server = SimServer (M-chain reference model behind th
 
 pub fn checks() -> Vec<CheckDef> {
     vec![
+        CheckDef {
+            id: "C03",
+            level: "exploration",
+            runs_quick: 60_000,
+            runs_thorough: 3_000_000,
+            rule: "round-structured histories: 2-3 replicas quiescent on a common state each commit one batch (per task: create+updates with distinct properties, or a delete), then synchronize; every round is re-executed from a copy of the common state under every order of first syncs (N! orders) followed by seeded interleaved catch-up syncs; each execution must equal the documented-winner model (M-winner) and all executions must agree. evaluations = executions (round x order). Non-trivial: a round in which at least two replicas committed something; distinct = distinct trace hash.",
+            gen: gen_c03,
+            run: run_c03,
+            shrink: shrink_c03,
+            real: REAL_A,
+            stub: STUB_A,
+            assumptions: &["batches are restricted to the forms for which the documentation gives an unambiguous winner", "for equal greatest timestamps with different values any of the tied values is accepted, but it must be the same in every order"],
+        },
         CheckDef {
             id: "C01",
             level: "exploration",
